@@ -225,6 +225,12 @@ func genCase(r *vrun.Run, idx int) caseSpec {
 		}
 		c.Entries = append(c.Entries, zipgen.Entry{Name: "sub/inner.zip", Nested: inner, Declared: -1})
 	}
+	// nested archives whose OWN name is hostile: the stem of the name becomes the extraction directory in recursive mode
+	if rng.IntN(6) == 0 {
+		nn := []string{"...zip", "sub/...zip", "a/b/...zip", "...jar", "..zip", ". .zip", "..../...zip", ".zip", "x/.zip"}[rng.IntN(9)]
+		c.Names = append(c.Names, nameSpec{Name: nn, Class: "nested-archive-name:" + filepath.Base(nn), Hostile: true})
+		c.Entries = append(c.Entries, zipgen.Entry{Name: nn, Nested: []zipgen.Entry{zipgen.E("payload.txt", data()), zipgen.E("d/payload2.txt", data())}, Declared: -1})
+	}
 	return c
 }
 
